@@ -3,15 +3,20 @@ SPEC = dict(
     level='proof',
     level_text='Deductive proof (unbounded in protein length, number of sites, missed cleavages and length bounds) that the real span '
                'builders in spans.py yield exactly the multiset of spans the statement defines: VCs generated from the real AST with loop '
-               'invariants, discharged by z3/cvc5. The two grouped semi builders (sorted/groupby) and digest() (regex site finder, '
-               'dispatch) are covered by an exhaustive bounded check of the same clause on the real functions, labelled bounded.',
+               'invariants, discharged by z3/cvc5; and that digest() (return type span) returns EXACTLY the spans build_spans defines for '
+               'the union of the cleavage sites of all the given rules -- plus the whole protein when the digestion is declared incomplete -- '
+               'each once, sorted by (start, end, value) (loop invariant over the rules with the set-valued fold SITES; sorted(set) with the '
+               'identity key as lexicographic enumeration). The two grouped semi builders (sorted/groupby) and the regex site finder are '
+               'covered by an exhaustive bounded check of the same clause on the real functions, labelled bounded.',
     level_note='Trusted: pyvc VC generator, z3/cvc5, ast. Assumed contracts: _grouped_left/right_semi_span_builder (bounded-checked). '
                'A-CNT, A-PIGEON, LC-SORTED/LC-SET library contracts for sorted(set(..)). Generators as multisets. regex engine.',
     design_ref='DESIGN.md section 6, C06',
-    contracts=['spans'],
+    contracts=['spans', 'digest'],
+    targets={'digest': ['peptacular.digestion:digest@span', 'peptacular.digestion:_return_digested_sequences@span', 'peptacular.proforma.proforma_parser:ProFormaAnnotation.__len__', 'peptacular.proforma.proforma_parser:ProFormaAnnotation.sequence']},
     bounded=[dict(name='C06-bounded', script='bounded/C06.py')],
     replay_finder='bounded/C06.py',
     proved_clauses=[
+        'digest(return_type=span): exactly the spans of build_spans for the sites of all rules together (+ the whole protein if incomplete), each once, sorted',
         'build_non_enzymatic_spans / build_left_semi_spans / build_right_semi_spans: exact multiset of yielded spans (unbounded)',
         'build_enzymatic_spans: exact multiset = {(S[a],S[b],b-a-1): a<b<=a+mc+1, min<=len<=max} via two loop invariants (unbounded)',
         'build_semi_spans, build_spans: dispatch, semi union, length filter, disjointness of enzymatic/left/right families, '
